@@ -377,6 +377,7 @@ def weave_item(hdr, subs, stats):
             add_replace = None
         if spec_parts:
             add(toks[bi].start, "\n" + "\n".join(spec_parts) + "\n")
+        sigonly = "sigonly" in opts
         # loops
         loop_toks = [i for i in range(bi, body_close)
                      if toks[i].kind == "id" and toks[i].text in ("loop", "while", "for")
@@ -484,6 +485,10 @@ def weave_item(hdr, subs, stats):
                 add(toks[endtok].end, "\n" + d["text"].rstrip() + "\n")
             clauses += len(re.findall(r"\bassert\b", d["text"]))
     edits = [(p, o, ("ins", t)) for p, o, t in ins]
+    if kind == "fn" and "sigonly" in opts:
+        # assumed-contract stub: the body is verified in another unit against the same contract text
+        edits = [e for e in edits if not (toks[bi].start < e[0] <= toks[body_close].end)]
+        edits.append((toks[bi].start, 10 ** 6, ("rep", (toks[bi].start, toks[body_close].end, "{ unimplemented!() }"))))
     if add_replace:
         edits.append((add_replace[0], -1, ("rep", add_replace)))
     if rename and ot_name_span:
@@ -494,6 +499,8 @@ def weave_item(hdr, subs, stats):
         else:
             ot.replace(v[0], v[1], v[2])
     attrs = [d["text"] for d in subs if d["op"] == "attr"]
+    if kind == "fn" and "sigonly" in opts:
+        attrs.append("#[verifier::external_body]")
     if attrs:
         ot.insert(0, "\n".join(attrs) + "\n")
     meta = {
@@ -502,7 +509,8 @@ def weave_item(hdr, subs, stats):
         "sha256": hashlib.sha256(orig_text.encode()).hexdigest(),
         "rewrites": log, "woven_clauses": clauses,
         "canary": "nocanary" not in opts and kind == "fn" and "sigonly" not in opts,
-        "contracted": kind == "fn" and any(d["op"] in ("requires", "ensures") for d in subs),
+        "contracted": kind == "fn" and any(d["op"] in ("requires", "ensures") for d in subs) and "sigonly" not in opts,
+        "assumed_stub": kind == "fn" and "sigonly" in opts,
     }
     return ot, meta
 
@@ -648,6 +656,14 @@ def parse_template(path, seen=None):
                     if body == "end":
                         i += 1
                         break
+                    if body.startswith("use "):
+                        inc = os.path.join(UNITS, body.split(None, 1)[1].strip())
+                        try:
+                            inc_lines = open(inc, encoding="utf-8").read().split("\n")
+                        except OSError as e:
+                            raise WeaveError(str(e))
+                        lines[i:i + 1] = inc_lines
+                        continue
                     cur = None
                     w = body.split(None, 1)
                     op = w[0]
